@@ -81,12 +81,33 @@ def ref_level_matrix(fs, spec, ref, L, data_cache):
 
 def check_hassemble(spec, ctx):
     from pyiga import assemble
-    hs, ref, info = gh.replay(spec, ctx)
+    name = spec["form"]
+    # the space is USED between the refinement steps of its history (an adaptive loop assembles, queries boundary dofs,
+    # refines, assembles again): the final matrix is defined by the final space alone, so none of this may change it
+    probe = list(spec.get("probe") or [])
+    nsteps = len(spec["steps"])
+    state = {"k": 0, "used": 0}
+
+    def on_step(hs_, ref_, info_):
+        k = state["k"]
+        state["k"] += 1
+        bits = probe[k % len(probe)] if probe else 0
+        if not bits or info_["calls"] == 0:
+            return
+        if bits & 1:
+            fs0 = _fill(form_spec(name, ref_.dim), spec)
+            fs0["kvs"] = [spec["kvs"]]
+            b0 = gf.build_data(fs0)
+            ctx.sut(assemble.assemble, gf.build_vform(fs0), hs_, args=dict(b0["args"]), what="assemble(hspace) between refinements")
+        if bits & 2:
+            ctx.sut(hs_.dirichlet_dofs, what="dirichlet_dofs between refinements")
+            ctx.sut(hs_.indices_to_smooth, what="indices_to_smooth between refinements")
+        state["used"] += 1
+    hs, ref, info = gh.replay(spec, ctx, on_step=on_step if probe else None)
     if info["calls"] == 0:
         raise Skip("no effective refinement")
     L = ref.trimmed_levels()
     dim = ref.dim
-    name = spec["form"]
     NL = int(np.prod(ref.ndofs(L - 1)))
     QL = int(np.prod([n * (p + 1) for n, (t, p) in zip(ref.ncells(L - 1), ref.levels[L - 1])]))
     if QL * NL * (NL if form_spec(name, dim)["arity"] == 2 else 1) > 4e7:
@@ -161,7 +182,8 @@ def check_hassemble(spec, ctx):
     ctx.flag("dim%d" % dim, "levels%d" % L, name, "thb" if spec["truncate"] else "hb", "disparity_%s" % spec["disparity"],
              "bdspecs_%s" % ("none" if spec["bdspecs"] is None else ("empty" if not spec["bdspecs"] else "faces")),
              "curved_geo" if spec["geo"]["amp"] > 0 else "affine_geo", "nurbs_geo" if spec["geo"]["nurbs"] else None,
-             "symmetric_flag" if sym else None, "disparity_added_cells" if info["disparity_added"] else None)
+             "symmetric_flag" if sym else None, "disparity_added_cells" if info["disparity_added"] else None,
+             "used_between_refinements" if state["used"] and info["calls"] >= 2 else None)
     ctx.nontrivial = L >= 2 and interlevel
 
 
@@ -186,6 +208,7 @@ def strat_hassemble(draw, tier="quick"):
     spec["symmetric"] = draw(st.booleans())
     spec["fseed"] = [draw(st.integers(-8, 8)) / 4.0 for _ in range(11)]
     spec["pvals"] = [draw(st.integers(-8, 8)) / 4.0 for _ in range(3)]
+    spec["probe"] = [draw(st.sampled_from([0, 0, 1, 2, 3])) for _ in range(len(spec["steps"]))]
     return spec
 
 
@@ -212,6 +235,7 @@ def enum_1d(tier):
                             continue
                         h = dict(h)
                         h["form"] = "mass" if (i % 2 == 0 or tier == "quick" and n == 3) else "laplace"
+                        h["probe"] = [(i // 2) % 4, 0]      # use the space after the first refine call in 3 of 4 histories
                         out.append(h)
     return out
 
